@@ -8,6 +8,7 @@ use crate::model::*;
 use crate::refgrammar;
 use crate::space::*;
 use crate::subject::*;
+use digital_test_runner as dtr;
 use digital_test_runner::verif_hooks as hooks;
 use serde_json::json;
 use std::collections::HashSet;
@@ -159,7 +160,50 @@ pub fn describe(text: &str) -> String {
     }
 }
 
+thread_local! {
+    static BASE_FILE: Option<dtr::dig::File> = {
+        use crate::digxml::{self, Pin, PinKind};
+        let doc = digxml::render(&[Pin::new(PinKind::In, "A"), Pin::new(PinKind::In, "B"), Pin::new(PinKind::Out, "Q")], &[digxml::TestDesc { label: Some("t".into()), source: "A B\n0 0\n".into(), extra: vec![] }]);
+        dtr::dig::File::parse(&doc).ok()
+    };
+}
+
+/// The same text as the source of a test of a loaded .dig file (the public `source` field is set):
+/// `load_test` parses it and attaches the source to the error; the error must be renderable too.
+fn dig_route(text: &str, st: &mut Stats) -> Option<(String, String)> {
+    let mut f = BASE_FILE.with(|b| b.clone())?;
+    f.test_cases[0].source = text.to_string();
+    st.witness("text_parsed_as_the_source_of_a_test_of_a_dig_file");
+    let t = text.to_string();
+    let r = guard(DEFAULT_BUDGET, move || match f.load_test(0) {
+        Err(dtr::errors::LoadTestError::ParseError(e)) => {
+            let spans: Vec<(usize, usize)> = e.at.iter().map(|s| (s.start, s.end)).collect();
+            for &(a, b) in &spans {
+                if !(a <= b && b <= t.len()) || !t.is_char_boundary(a) || !t.is_char_boundary(b) {
+                    return Some(format!("error location {a}..{b} of the error returned by load_test is not a range of the text on character boundaries"));
+                }
+            }
+            let rep = miette::Report::new(e);
+            let mut out = String::new();
+            let h = miette::GraphicalReportHandler::new_themed(miette::GraphicalTheme::unicode_nocolor());
+            let _ = h.render_report(&mut out, rep.as_ref());
+            None
+        }
+        _ => None,
+    });
+    match r {
+        Ok(None) => None,
+        Ok(Some(m)) => Some(("location of a load_test error outside the text / inside a character".into(), m)),
+        Err(c) => Some(("load_test or the rendering of its error panics".into(), format!("text as the source of a test of a .dig file: {c:?}"))),
+    }
+}
+
 fn check_text(mode: Mode, text: &str, order: u64, rendered: &mut HashSet<u64>, st: &mut Stats) -> ParseObs {
+    if mode == Mode::C09 && (order >> 60) >= 3 {
+        if let Some((class, desc)) = dig_route(text, st) {
+            st.violation(&class, order, format!("text ({} bytes): {:?}\n{desc}", text.len(), text), || json!({"kind": "parse", "via_dig": true, "text": text, "expected": ["load_test returns a test or an error with locations inside the text that can be rendered; never panics"], "observed": [desc.clone()]}));
+        }
+    }
     let o = parse_obs(text);
     st.evals += 1;
     let eof = o.eof_pulled;
@@ -592,7 +636,7 @@ pub fn run(mode: Mode, tier: Tier, seed: u64) -> i32 {
     total.sample(|| json!({"token_tree_node": "A B\nloop ( a , 2 )\n0 0\nend loop", "note": "every node of the prefix tree is one text handed to from_str"}));
 
     let required: Vec<&'static str> = match mode {
-        Mode::C09 => vec!["accepted_text", "rejected_text", "diagnostic_rendered", "leaf_at_depth_bound", "subtree_pruned_parser_did_not_reach_end", "text_with_multibyte_characters", "text_beyond_the_small_scope", "statement_start_followed_by_a_character_string"],
+        Mode::C09 => vec!["accepted_text", "rejected_text", "diagnostic_rendered", "leaf_at_depth_bound", "subtree_pruned_parser_did_not_reach_end", "text_with_multibyte_characters", "text_beyond_the_small_scope", "statement_start_followed_by_a_character_string", "text_parsed_as_the_source_of_a_test_of_a_dig_file"],
         Mode::C12 => vec!["grammar_breaking_edit", "truncated_program_rejected_by_reference", "edit_leaves_text_valid", "leaf_at_depth_bound", "subtree_pruned_parser_did_not_reach_end", "text_beyond_the_small_scope"],
     };
     let meta = CheckMeta {
@@ -615,5 +659,9 @@ pub fn run(mode: Mode, tier: Tier, seed: u64) -> i32 {
 }
 
 pub fn replay_parse(j: &serde_json::Value) -> Vec<String> {
+    if j["via_dig"].as_bool().unwrap_or(false) {
+        let mut st = Stats::default();
+        return vec![dig_route(j["text"].as_str().unwrap_or(""), &mut st).map(|x| x.1).unwrap_or("load_test returns an error that can be rendered".into())];
+    }
     vec![describe(j["text"].as_str().unwrap_or(""))]
 }
